@@ -235,7 +235,7 @@ func writeReplay(w *World, o *Options, ob *Obligation, dir string) (string, bool
 	fmt.Fprintf(&b, "obligation: %s\nproperty: %s\nkind: %s\nstatus: %s\nclause: %s\nsource: %s\nbackend: %s\n\n", ob.Name, o.property, ob.Kind, ob.Status, ob.Text, ob.Pos, ob.Backend)
 	confirmed := false
 	var goPath string
-	if ob.Status == "failed" && ob.Model != "" && !o.noReplay {
+	if ob.Status == "failed" && (ob.Model != "" || ob.Extra["confirmed"] == "true") && !o.noReplay {
 		goPath, confirmed = tryReplay(w, o, ob, base, &b)
 	}
 	fmt.Fprintf(&b, "\n---- solver output ----\n%s\n", truncate(ob.Output, 20000))
